@@ -58,6 +58,7 @@ pub const EV_SP: u16 = 25;
 pub const EV_STALE: u16 = 26;
 pub const EV_FREEZE: u16 = 27;
 pub const EV_CAS_SPUR: u16 = 28;
+pub const EV_POST: u16 = 29;
 pub const EV_USER: u16 = 100;
 
 pub fn ev_name(k: u16) -> &'static str {
@@ -90,6 +91,7 @@ pub fn ev_name(k: u16) -> &'static str {
         EV_STALE => "stale_read",
         EV_FREEZE => "freeze",
         EV_CAS_SPUR => "cas_spurious",
+        EV_POST => "after_write",
         _ => "user",
     }
 }
@@ -1725,6 +1727,11 @@ pub fn ev_cell_access(p: usize, is_write: bool) {
     log(EV_CELL, id as u64, is_write as u64);
     if let Some(prev) = s.cells.get(&p) {
         if prev.tid as usize != me && vc[prev.tid as usize] < prev.clock {
+            if checking("C06") {
+                // a data race on a cell makes the value outcomes undefined: under the declared
+                // orderings the channel may invent, lose or tear a value
+                report("C06", "cell-race-permits-value-corruption", &format!("T{} and T{} access channel cell L{} without happens-before under the declared orderings: the received value is undefined", me, prev.tid, id), true);
+            }
             violation(
                 "C07",
                 "cell-race",
